@@ -18,7 +18,7 @@ Open Scope string_scope.
 Open Scope list_scope.
 
 (* ------------------------------------------------------------------------------------------ circuits *)
-Inductive err := KeyError | IndexError | ValueError | TypeError.
+Inductive err := KeyError | IndexError | ValueError | TypeError | PyRatesException.
 Inductive res (A : Type) := Ok (a : A) | Err (e : err).
 Arguments Ok {A} a.
 Arguments Err {A} e.
@@ -252,7 +252,6 @@ Definition opvar (o x : string) : string := (o ++ "/" ++ x)%string.
 (* output_map of get_variable_positions: key ↦ single index | dict(var_key ↦ index); insertion ordered *)
 Inductive entry := Single (v : path) | Multi (vs : list path).
 
-Definition chars (s : string) : list string := map (fun c => String c EmptyString) (list_ascii_of_string s).
 Fixpoint join (sep : string) (l : list string) : string :=
   match l with [] => "" | [x] => x | x :: l' => (x ++ sep ++ join sep l')%string end.
 
@@ -262,12 +261,14 @@ Fixpoint positions_dict (t : tree) (reqs : list request) : res (list (string * e
   | [] => Ok []
   | (key, (pat, (o, x))) :: rest =>
       bind (get_nodes t (Some (o, x)) pat) (fun nodes =>
+      (* fix D48: `if not target_nodes: raise PyRatesException` *)
+      match nodes with [] => Err PyRatesException | _ =>
       bind (positions_dict t rest) (fun l =>
         Ok (match nodes with
             | [] => l
             | [n] => (key, Single (var_key n o x)) :: l
             | _ => (key, Multi (map (fun n => var_key n o x) nodes)) :: l
-            end)))
+            end)) end)
   end.
 
 (* dict.update: a key that is already present keeps its place *)
@@ -285,13 +286,14 @@ Fixpoint positions_list (t : tree) (L : layout) (old : bool) (reqs : list reques
       let o' := nth (n - 2) full "" in
       let x' := nth (n - 1) full "" in
       bind (get_nodes t (Some (o', x')) pat') (fun nodes =>
-        positions_list t L old rest (upd_keys acc (map (fun nd => var_key nd o' x') nodes)))
+        match nodes with [] => Err PyRatesException | _ =>
+        positions_list t L old rest (upd_keys acc (map (fun nd => var_key nd o' x') nodes)) end)
   end.
 
 (* the DataFrame columns: (label, source in the backend state) in column order.
    Several wildcard keys that expand to a common variable: the second outputs.pop raises KeyError.
-   No column at all: pandas raises ValueError.  A plain key inside a MultiIndex frame is passed to
-   MultiIndex.from_tuples as a str and comes back split into characters. *)
+   No column at all (empty request): pandas raises ValueError.  (Since fix D43 a plain key inside a MultiIndex
+   frame is wrapped as a 1-tuple; before, the str was split into characters.) *)
 Definition multi_vars (es : list (string * entry)) : list path :=
   flat_map (fun e => match snd e with Multi vs => vs | Single _ => [] end) es.
 Fixpoint dupfree (l : list path) : bool :=
@@ -308,9 +310,8 @@ Definition run_columns (t : tree) (L : layout) (f : form) (reqs : list request) 
   | DictForm =>
       bind (positions_dict t reqs) (fun es =>
         if negb (dupfree (multi_vars es)) then Err KeyError else
-        let multi := existsb is_multi es in
         let lv := flat_map (fun e => match snd e with
-                                     | Single v => [(if multi then chars (fst e) else [fst e], v)]
+                                     | Single v => [([fst e], v)]
                                      | Multi vs => map (fun v => (fst e :: firstn (List.length v - 2) v ++ [last2 v], v)) vs
                                      end) es in
         match lv with [] => Err ValueError | _ => with_src lv end)
@@ -337,9 +338,14 @@ Definition spec_columns (t : tree) (f : form) (reqs : list request) : list (labe
                         add_new acc (map (fun n => var_key n o x) (path_denotation t (Some (o, x)) pat))) reqs [])
   end.
 
-(* requesting nothing is refused (pandas: "Empty data passed with indices specified") *)
+(* a request that denotes no variable is refused (PyRatesException, fix D48); so is requesting nothing
+   (pandas: "Empty data passed with indices specified") *)
+Definition all_found (t : tree) (reqs : list request) : bool :=
+  forallb (fun r => let '(_, (pat, (o, x))) := r in
+             match path_denotation t (Some (o, x)) pat with [] => false | _ => true end) reqs.
 Definition spec_result (t : tree) (f : form) (reqs : list request) : res (list (label * path)) :=
-  match spec_columns t f reqs with [] => Err ValueError | l => Ok l end.
+  if negb (all_found t reqs) then Err PyRatesException
+  else match spec_columns t f reqs with [] => Err ValueError | l => Ok l end.
 
 (* guards of the output stage *)
 Definition no_overlap (t : tree) (reqs : list request) : bool :=
@@ -348,10 +354,6 @@ Definition no_overlap (t : tree) (reqs : list request) : bool :=
                        | (_ :: _ :: _) as ns => map (fun n => var_key n o x) ns
                        | _ => []
                        end) reqs).
-Definition mixed_labels_ok (t : tree) (reqs : list request) : bool :=
-  let sizes := map (fun r => let '(key, (pat, (o, x))) := r in
-                      (String.length key, List.length (path_denotation t (Some (o, x)) pat))) reqs in
-  negb (existsb (fun s => Nat.leb 2 (snd s)) sizes) || forallb (fun s => negb (Nat.eqb (snd s) 1) || Nat.leb (fst s) 1) sizes.
 Definition some_column (t : tree) (reqs : list request) : bool :=
   existsb (fun r => let '(_, (pat, (o, x))) := r in
              match path_denotation t (Some (o, x)) pat with [] => false | _ => true end) reqs.
